@@ -1,6 +1,6 @@
 SPECIFICATION Spec
 CONSTANT Cfg <- MCCfg21
-CONSTANT Rots = {0, 2}
+CONSTANT Rots = {0, 1, 2, 3}
 CONSTANT Shuffle = FALSE
 CONSTANT Family = "cuts"
 CONSTANT Extra = 1
